@@ -82,7 +82,7 @@ PASS1 = {'array', 'abs', 'copy', 'diag', 'trace', 'sum', 'transpose', 'real', 'i
 PRODUCT = {'dot', 'tensordot', 'outer', 'kron', 'multiply', 'einsum', 'inner', 'matmul', 'cross'}
 POLY = {'zeros', 'zeros_like', 'empty', 'empty_like'}
 DIMLESS = {'eye', 'ones', 'ones_like', 'identity', 'arange', 'linspace'}
-INDEXY = {'len', 'range', 'enumerate', 'int', 'round', 'argsort', 'argmax', 'argmin', 'where', 'nonzero', 'shape', 'ndim', 'isinstance', 'type', 'str', 'repr', 'id'}
+INDEXY = {'len', 'range', 'int', 'round', 'argsort', 'argmax', 'argmin', 'where', 'nonzero', 'shape', 'ndim', 'isinstance', 'type', 'str', 'repr', 'id'}
 
 
 class Checker:
@@ -258,6 +258,58 @@ class Checker:
     def e_DictComp(self, e):
         return self._comp(e, e.value)
 
+    def inline_method(self, mname, args, kw, e):
+        from .. import extract
+        qn = self.c.get('qualname', '')
+        if '.' not in qn: raise Undecided('degree typing: call of self.%s (line %d) has no degree contract' % (mname, e.lineno))
+        depth = getattr(self, 'depth', 0)
+        if depth >= 3: raise Undecided('degree typing: helper calls nested deeper than 3 at self.%s (line %d)' % (mname, e.lineno))
+        try:
+            fn2 = extract.get(self.c['relpath'], qn.split('.')[0] + '.' + mname)
+        except KeyError:
+            raise Undecided('degree typing: call of self.%s (line %d): no such method in the class and no degree contract' % (mname, e.lineno))
+        a = fn2.node.args
+        if a.vararg or a.kwarg or a.kwonlyargs or a.posonlyargs: raise Undecided('degree typing: signature of helper %s (line %d)' % (mname, e.lineno))
+        names = [x.arg for x in a.args]
+        if any(d in ('staticmethod',) for d in fn2.decorators): pass
+        elif names and names[0] in ('self', 'cls'): names = names[1:]
+        if len(args) > len(names): raise Undecided('degree typing: too many arguments for helper %s (line %d)' % (mname, e.lineno))
+        sub = Checker(dict(self.c, qualname=qn.split('.')[0] + '.' + mname, returns=None, fields_after={}, start_after_line=None, params={}), fn2)
+        sub.depth = depth + 1
+        sub.attr_now = dict(self.attr_now)
+        sub.collect = []
+        given = {}
+        for n_, x in zip(names, args): given[n_] = self.ev(x)
+        for k_, v_ in kw.items():
+            if k_ not in names: raise Undecided('degree typing: keyword %s of helper %s (line %d)' % (k_, mname, e.lineno))
+            given[k_] = self.ev(v_)
+        defaults = dict(zip(names[len(names) - len(a.defaults):], a.defaults))
+        for n_ in names:
+            if n_ in given: sub.env[n_] = given[n_]
+            elif n_ in defaults: sub.env[n_] = sub.ev(defaults[n_])
+            else: raise Undecided('degree typing: argument %s of helper %s not given (line %d)' % (n_, mname, e.lineno))
+        sub.run_block(fn2.body)
+        for (nm, ok, det, line) in sub.obligations:
+            self.obligations.append(('inlined %s:%s' % (mname, nm), ok, det, line))
+        if any(k_.startswith('self.') and sub.attr_now[k_] != self.attr_now.get(k_) for k_ in sub.attr_now):
+            raise Undecided('degree typing: helper %s assigns fields of self (line %d)' % (mname, e.lineno))
+        if not sub.collect: return NA
+        out = sub.collect[0]
+        for d in sub.collect[1:]:
+            if isinstance(out, Tup) or isinstance(d, Tup):
+                if not (isinstance(out, Tup) and isinstance(d, Tup) and len(out.items) == len(d.items)): raise Undecided('degree typing: helper %s returns values of different shapes (line %d)' % (mname, e.lineno))
+                items = []
+                for x, y in zip(out.items, d.items):
+                    j = y if x in (ZERO,) else x if y in (ZERO,) else (x if x == y else join(x, y))
+                    if j is None: raise Undecided('degree typing: helper %s returns values of different degrees on different paths (line %d)' % (mname, e.lineno))
+                    items.append(j)
+                out = Tup(items)
+            else:
+                j = d if out == ZERO else out if d == ZERO else (out if out == d else join(out, d))
+                if j is None: raise Undecided('degree typing: helper %s returns values of different degrees on different paths (line %d)' % (mname, e.lineno))
+                out = j
+        return out
+
     def element_of(self, d, node):
         """degree of the items produced by iterating a value"""
         if isinstance(d, Tup): return d          # zip(...) / enumerate(...) results are modelled as tuples of element degrees
@@ -284,6 +336,10 @@ class Checker:
             if text.startswith(('np.', 'numpy.', 'scipy.', 'itertools.')):
                 name = f.attr
             else:
+                if isinstance(f.value, ast.Name) and f.value.id in ('self', 'cls'):
+                    # a method of the object itself without a degree contract (a private helper split off by a refactoring, say): its body
+                    # is typed in place with the degrees of the actual arguments -- every statement of it becomes an obligation of ours
+                    return self.inline_method(f.attr, args, kw, e)
                 base = self.ev(f.value)
                 if f.attr in ('copy', 'conj', 'real', 'flatten', 'ravel', 'reshape', 'transpose', 'sum', 'max', 'min', 'trace', 'astype', 'tolist', 'dot', 'get', 'values', 'items', 'keys',
                               'ldot', 'rdot', 'irotate', 'rotate', 'reduce', 'separate', 'truncate', 'nl', 'inv'):
@@ -350,6 +406,7 @@ class Checker:
             return NA
         if name in ('any', 'all'): return NA
         if name == 'zip': return Tup([self.element_of(d, e) for d in ds])
+        if name == 'enumerate': return Tup([NA, self.element_of(ds[0], e)]) if ds else NA       # (counter, item): the item keeps its degree
         if name == 'count': return NA
         if name == 'next':
             d = ds[0]
@@ -416,6 +473,7 @@ class Checker:
         if isinstance(st, ast.Return):
             self.nret += 1
             d = self.ev(st.value) if st.value is not None else NA
+            if hasattr(self, 'collect'): self.collect.append(d)
             want = self.c.get('returns')
             if want is not None:
                 got = d.items if isinstance(d, Tup) else [d]
